@@ -275,7 +275,7 @@ func histGen(prop string, stores []string) func(t *rapid.T) histCase {
 		o.KeyTypes = []string{"string", "int32"}
 		o.ConfigFalse, o.Unions = false, false
 		if store != "rs" {
-			o.CompoundKeys = false
+			o.CompoundKeys = true
 			o.Types = []string{"int8", "int32", "int64", "uint16", "decimal64", "string", "boolean"}
 		}
 		if strings.HasSuffix(store, "-struct") {
